@@ -22,7 +22,22 @@ TRUSTED = [
 ASSUMPTIONS = ["the four payload types of the probe are representative of their (Send?,Sync?) class (auto traits are structural)"]
 
 
+EVAL_FILES = {
+    "C09Table.v": "Require Import Verif.common.Prelude Verif.model.AutoTrait Verif.gen.AutoTraits_Src.\nEval vm_compute in table env rules.\n",
+    "C09Over.v": "Require Import Verif.common.Prelude Verif.model.AutoTrait Verif.gen.AutoTraits_Src.\nEval vm_compute in overreach_rows env.\n",
+}
+
+
+def write_eval_files():
+    """the two evaluation scripts (not part of the build: they print tables computed in the kernel over the regenerated environment)"""
+    for name, text in EVAL_FILES.items():
+        path = os.path.join(vlib.COQ, "gen", name)
+        if not os.path.exists(path) or open(path).read() != text:
+            open(path, "w").write(text)
+
+
 def coq_table():
+    write_eval_files()
     ok, log, _ = vlib.coq_build(["gen/AutoTraits_Src.v"])
     if not ok:
         return None, "generated environment does not compile: " + log[-600:]
@@ -36,6 +51,7 @@ def coq_table():
 
 def coq_overreach():
     """explicit impls that grant a marker the fields do not have (pointer-free ADTs): rows [adt index, marker, assignment bits..] computed in the kernel"""
+    write_eval_files()
     rc, o, e, _ = vlib.sh("timeout 300 coqc -Q %s Verif %s" % (vlib.COQ, os.path.join(vlib.COQ, "gen", "C09Over.v")), timeout=330)
     if rc != 0:
         return None, (o + e)[-600:]
